@@ -90,7 +90,7 @@ def run(ctx: Ctx):
     lits, descr = [], []
     for i in range(ctx.n(700, 12000)):
         frame = M.gen_frame(rng, cat_dtypes=("object", "object", "category", "str"))
-        terms = _dedupe(M.gen_terms(rng))
+        terms = M.dedupe(M.gen_terms(rng))
         efr = rng.random() < 0.6
         na = rng.choice(["drop", "drop", "raise", "ignore"])
         cd = sorted(set(rng.randrange(frame.n) for _ in range(rng.choice([0, 0, 1, 2]))))
